@@ -530,7 +530,7 @@ impl Monitor for C08 {
         vec![("lattice", tier.pick(4320 * 150, 3 * 1440 * 1440)), ("sequences", tier.pick(75_000, 750_000)), ("large_extents", tier.pick(3_000, 60_000)), ("flat_sizes", 1100), ("large_flat_sizes", 1), ("flatten", tier.pick(15_000, 150_000)), ("connections", tier.pick(30_000, 300_000))]
     }
     fn rule(&self) -> &'static str {
-        "lattice: single conv/deconv/pool layers; axis 0 enumerates (extent 1..10, kernel 1..4, stride 1..3, padding 0..3, dilation 1..3) completely, axis 1 follows a covering walk over the same 1440 tuples; configurations invalid by the standard formulas are skipped (counted); for the others: the `inputs -> outputs` line of the network's Display == closed form (conv floor((i+2p-d(k-1)-1)/s)+1, deconv (i-1)s-2p+k, pool floor((i-k)/s)+1) == shape field and nesting of the tensors forward produces, and every weight/bias/kernel gradient of the hooked backward has the shape of its parameter. large_extents: single conv/deconv/pool layers (every third followed by a dense layer) with one extent from {31..33, 63..66, 127..130, 255..257}, 1..17 channels and filters, kernels 1..7, stride 1..5, padding 0..4, dilation 1..4, any activation - same checks. sequences: random networks of depth 1..5 with all transitions, every fourth with a feedback block. flat_sizes: EVERY flat size n = 1..1100 x {conv, deconv, pool}: accepted iff n is a perfect square, then read as 1 x r x r in row-major order (index-valued input through 1x1 identity layers); non-square lengths additionally against eight other geometries (one-row and one-column kernels, strides, paddings, dilation, several filters), all of which must be rejected; for squares up to 400 additionally through 1x1 identity convolutions with paddings (0,1), (1,0), (1,1), (0,2), (2,1): the r x r image must sit in row-major order inside its frame of zeros; network-level (dense(n) followed by the spatial layer) for n <= 150. large_flat_sizes: r*r + d for r in {4095..100003}, d in -3..3 (lengths beyond 2^24 that single precision cannot represent), layer level. flatten: spatial output into identity dense layer must arrive in row-major order; with dropout configured on the spatial layer a training step (training mode) on one sample must go through as well. connections: the same transitions made by connections - a loop connection from a spatial layer whose output is flattened back into a spatial layer with 1..4 channels, a skip connection from a flat input into a multi-channel spatial input, one from a spatial input into a flat input - through identity layers on the input 1..n: the output must be the exact multiple of 1..n (in order) that the reference semantics of the connection give."
+        "lattice: single conv/deconv/pool layers; axis 0 enumerates (extent 1..10, kernel 1..4, stride 1..3, padding 0..3, dilation 1..3) completely, axis 1 follows a covering walk over the same 1440 tuples; configurations invalid by the standard formulas are skipped (counted); for the others: the `inputs -> outputs` line of the network's Display == closed form (conv floor((i+2p-d(k-1)-1)/s)+1, deconv (i-1)s-2p+k, pool floor((i-k)/s)+1) == shape field and nesting of the tensors forward produces, and every weight/bias/kernel gradient of the hooked backward has the shape of its parameter. large_extents: single conv/deconv/pool layers (every third followed by a dense layer) with one extent from {31..33, 63..66, 127..130, 255..257}, 1..17 channels and filters, kernels 1..7, stride 1..5, padding 0..4, dilation 1..4, any activation - same checks. sequences: random networks of depth 1..5 with all transitions, every fourth with a feedback block (every eighth: a block with random input / output skips and any of the five accumulations, 1..3 repetitions, bodies of one or two layers whose inner shapes may differ). flat_sizes: EVERY flat size n = 1..1100 x {conv, deconv, pool}: accepted iff n is a perfect square, then read as 1 x r x r in row-major order (index-valued input through 1x1 identity layers); non-square lengths additionally against eight other geometries (one-row and one-column kernels, strides, paddings, dilation, several filters), all of which must be rejected; for squares up to 400 additionally through 1x1 identity convolutions with paddings (0,1), (1,0), (1,1), (0,2), (2,1): the r x r image must sit in row-major order inside its frame of zeros; network-level (dense(n) followed by the spatial layer) for n <= 150. large_flat_sizes: r*r + d for r in {4095..100003}, d in -3..3 (lengths beyond 2^24 that single precision cannot represent), layer level. flatten: spatial output into identity dense layer must arrive in row-major order; with dropout configured on the spatial layer a training step (training mode) on one sample must go through as well. connections: the same transitions made by connections - a loop connection from a spatial layer whose output is flattened back into a spatial layer with 1..4 channels, a skip connection from a flat input into a multi-channel spatial input, one from a spatial input into a flat input - through identity layers on the input 1..n: the output must be the exact multiple of 1..n (in order) that the reference semantics of the connection give."
     }
     fn assumptions(&self) -> Vec<&'static str> {
         vec!["the Display output of Network is parsed black-box for the announced shapes", "harness built with overflow checks on"]
